@@ -32,14 +32,24 @@ type Node struct {
 
 // NewNode starts a node on the given network.
 func NewNode(n *consensus.Network, genesis types.Block, opts ...wallet.Option) (*Node, error) {
+	return NewNodeWithStore(n, genesis, nil, opts...)
+}
+
+// NewNodeWithStore is NewNode with the store the wallet reads through wrapped by wrap (the node
+// itself keeps feeding chain updates to the underlying store).
+func NewNodeWithStore(n *consensus.Network, genesis types.Block, wrap func(*testutil.EphemeralWalletStore) wallet.SingleAddressStore, opts ...wallet.Option) (*Node, error) {
 	db, tipstate, err := chain.NewDBStore(chain.NewMemDB(), n, genesis, nil)
 	if err != nil {
 		return nil, err
 	}
 	cm := chain.NewManager(db, tipstate)
 	ws := testutil.NewEphemeralWalletStore()
+	var store wallet.SingleAddressStore = ws
+	if wrap != nil {
+		store = wrap(ws)
+	}
 	key := types.GeneratePrivateKey()
-	w, err := wallet.NewSingleAddressWallet(key, cm, ws, &testutil.MockSyncer{}, opts...)
+	w, err := wallet.NewSingleAddressWallet(key, cm, store, &testutil.MockSyncer{}, opts...)
 	if err != nil {
 		return nil, err
 	}
